@@ -77,3 +77,12 @@ def run(ctx: Ctx):
     if not probs:
         ctx.ok("factory-wiring", {"factories": [f.factory.name for f in im.hooks.factories]})
         ctx.ok("factory-wiring")
+
+
+_run_before_converter_precondition = run
+
+
+def run(ctx: Ctx):  # noqa: F811
+    _run_before_converter_precondition(ctx)
+    from . import _sitebase as _sb
+    _sb.converter_precondition(ctx)
